@@ -12,6 +12,11 @@ Reference semantics (rows are Python list OBJECTS):
   * writes with a plain row index update the row object in place; a write whose ROW index is secret rebuilds every row of
     the matrix (`if_then_else` per row), so previously held plain-index rows are detached from then on -- except a row that
     is itself the value being stored (`if_then_else(c, x, x)` returns `x`);
+  * a row snapshot (secret-index read) may be STORED in the matrix at a constant position (`a[0] = a[PrivVal(2)]`) and a matrix
+    may be BUILT from rows that were read before (`g = Array([a[PrivVal(1)], a[0]])`, operation "gather"): the stored object
+    stays read-only for writes that go through it (`a[0][j] = v`, `r = a[0]; r[j] = v` raise TypeError by design), while a
+    tuple write `a[0, j] = v` replaces it by an updated writable copy (the snapshot object held elsewhere keeps its values);
+  * the matrix is compared with the reference after EVERY operation, not only at the end;
   * a secret index outside the array raises IndexError wherever it is used outside a not-taken branch, however often and
     wherever the same index object was used before.
 """
@@ -77,14 +82,25 @@ class Real:
         elif k == "setchain": m[op[1]][ix(op[2])] = op[3]
         elif k == "set2": m[ix(op[1]), ix(op[2])] = op[3]
         elif k == "setrow": m[ix(op[1])] = v[op[2]]
+        elif k == "gather": self.m = Array([m[ix(sp)] for sp in op[1]])
         else: raise ValueError("op " + k)
+
+
+class Row(list):
+    """a row object of the reference; `ro`: a snapshot returned by a secret-index read (writes THROUGH it are refused)"""
+    ro = False
+
+    @staticmethod
+    def snapshot(x):
+        r = Row(x); r.ro = True
+        return r
 
 
 class Ref:
     """nested Python lists with the object semantics described in the module docstring"""
 
     def __init__(self, h):
-        self.ref = [list(r) for r in h["init"]]
+        self.ref = [Row(r) for r in h["init"]]
         self.vars = {}; self.idx = {}
 
     def ix(self, spec, n):
@@ -97,7 +113,7 @@ class Ref:
 
     def rebuild(self, r, newrow, keep=None):
         """a write at a secret row index: every row becomes a fresh object (except one identical to the stored value)"""
-        self.ref = [(newrow if k == r else row) if (keep is not None and row is keep) else list(newrow if k == r else row)
+        self.ref = [(newrow if k == r else row) if (keep is not None and row is keep) else Row(newrow if k == r else row)
                     for k, row in enumerate(self.ref)]
 
     def do(self, op):
@@ -106,9 +122,9 @@ class Ref:
         if k == "idx": self.idx[op[1]] = (bool(op[2]), op[3])
         elif k == "row":
             sec, i = self.ix(op[2], nr)
-            v[op[1]] = ("rowview", list(ref[i])) if sec else ("alias", ref[i])
+            v[op[1]] = ("rowview", Row.snapshot(ref[i])) if sec else ("alias", ref[i])
         elif k == "copy":
-            v[op[1]] = ("array", list(v[op[2]][1]))
+            v[op[1]] = ("array", Row(v[op[2]][1]))
         elif k == "rowget":
             kind, lst = v[op[2]]
             sec, i = self.ix(op[3], len(lst)); v[op[1]] = ("scalar", lst[i])
@@ -121,15 +137,18 @@ class Ref:
                 v[op[1]] = ("scalar", 0)        # branch not taken: nothing inside it can raise
         elif k == "set1":
             kind, lst = v[op[1]]
-            if kind == "rowview": raise TypeError("read-only row")
+            if lst.ro: raise TypeError("read-only row")
             sec, i = self.ix(op[2], len(lst)); lst[i] = op[3]
         elif k == "setchain":
+            if ref[op[1]].ro: raise TypeError("read-only row")
             sec, c = self.ix(op[2], len(ref[op[1]])); ref[op[1]][c] = op[3]
         elif k == "set2":
             sr, r = self.ix(op[1], nr)
             sc, c = self.ix(op[2], len(ref[r]))
             if sr:
-                row = list(ref[r]); row[c] = op[3]; self.rebuild(r, row)
+                row = Row(ref[r]); row[c] = op[3]; self.rebuild(r, row)
+            elif ref[r].ro:
+                row = Row(ref[r]); row[c] = op[3]; ref[r] = row       # a stored snapshot is replaced by an updated copy
             else:
                 ref[r][c] = op[3]
         elif k == "setrow":
@@ -137,6 +156,12 @@ class Ref:
             kind, lst = v[op[2]]
             if sr: self.rebuild(r, lst, keep=lst)
             else: ref[r] = lst
+        elif k == "gather":
+            rows = []
+            for sp in op[1]:
+                sec, i = self.ix(sp, nr)
+                rows.append(Row.snapshot(ref[i]) if sec else ref[i])
+            self.ref = rows
         else: raise ValueError("op " + k)
 
 
@@ -160,6 +185,9 @@ def main():
                 except Exception as e:
                     refstatus = type(e).__name__
                 if status != "ok" or refstatus != "ok":
+                    at = n
+                    break
+                if plain(real.m) != ref.ref:            # compared after every step: `at` is the first operation after which they differ
                     at = n
                     break
             unsat = [i for i, (a, b, c) in enumerate(B.constraints) if (W.ev(a, p) * W.ev(b, p) - W.ev(c, p)) % p != 0]
